@@ -707,6 +707,43 @@ func c12LDAP(c *Ctx) {
 			c.Check(!reach(call), "ldap-gate", fmt.Sprintf("CatchAll reply[%d]", nrep), p.InstrPos(call), "not-logged-in sessions always get a non-success code", "the reply to add/modify/delete/modify-dn/compare is reachable for a session that is not logged in without a non-success result code being stored")
 		}
 		c.Check(nrep >= 1, "ldap-gate", "CatchAll replies", p.Pos(ca.Pos()), "", "no reply site found in the catch-all handler")
+		// the refusal stored for a session that is not logged in is what the reply carries: no later store to the
+		// result code can execute after it, unless that store is itself under isLogin()==true
+		loginIs := func(at ssa.Instruction, want bool) bool {
+			for _, dc := range DomConds(at) {
+				atom, pol0 := condAtom(dc.V)
+				for _, lc := range loginCalls {
+					if atom == ssa.Value(lc) && (pol0 == dc.Pol) == want {
+						return true
+					}
+				}
+			}
+			return false
+		}
+		loginKnown := func(at ssa.Instruction) bool { return loginIs(at, true) }
+		var rcStores, gateStores []*ssa.Store
+		for _, b := range ca.Blocks {
+			for _, in := range b.Instrs {
+				if st, ok := in.(*ssa.Store); ok {
+					if fa, ok := st.Addr.(*ssa.FieldAddr); ok && fieldNameOf(fa) == "resultCode" {
+						rcStores = append(rcStores, st)
+						if n, isC := ConstInt(st.Val); isC && n != 0 && loginIs(st, false) {
+							gateStores = append(gateStores, st)
+						}
+					}
+				}
+			}
+		}
+		for _, gs := range gateStores {
+			after := InstrReachFrom(ca, gs, nil, nil)
+			for i, st := range rcStores {
+				if st == gs || !after(st) || loginKnown(st) {
+					continue
+				}
+				c.Violate("ldap-gate", fmt.Sprintf("result code store[%d] after the refusal", i), p.InstrPos(st), "the result code is written again ("+RenderN(st.Val, 2)+") after the not-logged-in refusal was stored, on a path a session that is not logged in takes: the gated operation is answered with this code instead of being refused")
+			}
+		}
+		c.Check(len(gateStores) >= 1, "ldap-gate", "refusal store under !isLogin", p.Pos(ca.Pos()), "the refusal is stored only for sessions that are not logged in and nothing overwrites it", "no refusal code is stored specifically for sessions that are not logged in")
 		// no success store after the gate other than the initial literal: every store of 0 must be in the entry-dominating literal (block 0..) before the isLogin branch
 		for _, b := range ca.Blocks {
 			for _, in := range b.Instrs {
